@@ -52,7 +52,8 @@ fn cell_for(c: &Case) -> CellDesc {
     cell.limits = if c.limits == 0 {
         Limits { from: [-3.1; 6], to: [3.1; 6], weight: 0.0 }
     } else {
-        Limits { from: [-2.0, -1.5, -2.8, -3.0, -2.0, -3.0], to: [2.0, 2.4, 2.8, 3.0, 2.0, 3.0], weight: 0.5 }
+        // wide ranges whose centres are far from zero, so the CONSTRAINT_CENTERED reference differs from zeros
+        Limits { from: [-1.0, -1.5, -2.8, -0.5, -2.0, -5.5], to: [4.5, 2.4, 2.8, 5.5, 2.0, 0.5], weight: 0.5 }
     };
     cell
 }
@@ -134,10 +135,17 @@ pub fn eval(c: &Case) -> (Vec<(String, String)>, String) {
     }
     // the four inverse entry points = ordered filter of the underlying stack's answers
     let pose = to_na(&want);
-    let mut prev = *q;
-    prev[3] += 0.2;
+    let mut prev_near = *q;
+    prev_near[3] += 0.2;
     let mut kept_sig = String::new();
-    for entry in ENTRIES {
+    for (entry, prev) in ENTRIES.iter().flat_map(|e| {
+        let mut v = vec![(*e, prev_near)];
+        if e.uses_prev() {
+            v.push((*e, rs_opw_kinematics::kinematic_traits::CONSTRAINT_CENTERED));
+            v.push((*e, [2.0 * std::f64::consts::PI - 0.1, -4.0, 3.5, -5.0, 1.0, 6.0]));
+        }
+        v
+    }) {
         let all = match call(inner.as_ref(), entry, &pose, &prev, 0.4) {
             Ok(s) => s,
             Err(m) => {
@@ -161,7 +169,7 @@ pub fn eval(c: &Case) -> (Vec<(String, String)>, String) {
                 format!("got {} answers {got:?}, ordered filter of the underlying {} answers gives {want:?}", got.len(), all.len()),
             ));
         }
-        if entry == Entry::Continuing {
+        if entry == Entry::Continuing && !prev[0].is_nan() && kept_sig.is_empty() {
             kept_sig = format!("kept{}of{}", want.len(), all.len());
         }
     }
@@ -209,7 +217,7 @@ pub fn run(ctx: &Ctx) -> Report {
     }
     rep.traces_validated = rep.transitions;
     rep.rule = "constructors {new(first only), new(all), with_safety} x base/tool isometries {identity, shifted, rotated} x environments {free, near, blocking \
-                slab/wall/cage, ...} x safety {touch, 3 cm} x limits {wide, window+weight} x postures x four inverse entry points; oracle (differential): answers \
+                slab/wall/cage, ...} x safety {touch, 3 cm} x limits {wide, window+weight with off-zero centres} x postures x four inverse entry points x previous {near the solution, CONSTRAINT_CENTERED, far out}; oracle (differential): answers \
                 == ordered filter of the underlying stack's answers by !collides, bit-equal; forward, link poses, singularity bit-equal to the underlying stack; \
                 stack == base*FK_ref*tool with the given limits; positioned_robot == link poses cast to f32, tool on link 6, environment passed through; \
                 signature = (constructor, kept k of n)".into();
